@@ -21,7 +21,7 @@ RULE = ("S: operation histories over a pool of genuine and hostile certificates 
         "the independent checker evaluated at least one stored certificate / a verdict was compared.")
 ASSUMPTIONS = ["asn1tools' OER codec and the ASN.1 module are trusted to produce the to-be-signed images; python-ecdsa is trusted",
                "only roots passed to add_root_certificate by the harness ('the operator') count as configured"]
-REQUIRED_COUNTERS = ["S.ops", "S.store_certs_rechecked", "S.hostile_offers", "S.genuine_admitted", "V.messages", "V.accepted", "V.must_reject_checked", "I.issued", "I.must_not_verify_checked"]
+REQUIRED_COUNTERS = ["S.ops", "S.store_certs_rechecked", "S.hostile_offers", "S.genuine_admitted", "S.messages_carrying_a_certificate", "V.messages", "V.accepted", "V.must_reject_checked", "I.issued", "I.must_not_verify_checked", "I.must_not_verify_checked[multi-group-issuer]"]
 
 
 def craft_signed(own, backend, psid, payload, gen_time_us, signer="certificate", extra=None, tamper=None):
@@ -99,8 +99,10 @@ def gen_s(rng, names):
             k = rng.randrange(1, 4)
             ops.append({"op": "verify_seq", "certs": [rng.choice(names) for _ in range(k)]})
         else:
-            ops.append({"op": "message", "signer": rng.choice(("g0", "g1", "a0", "a_claim")), "form": rng.choice(("certificate", "digest")), "psid": rng.choice((36, 37, 638))})
-    return {"part": "S", "ops": ops, "with_aa": rng.random() < 0.5}
+            ops.append({"op": "message", "signer": rng.choice(("g0", "g1", "a0", "a_claim")), "form": rng.choice(("certificate", "digest")), "psid": rng.choice((36, 37, 638)),
+                        # certificates / certificate requests carried in the SIGNED header (peer-to-peer certificate distribution)
+                        "carries": rng.choice((None, None, "a_root", "a_aa", "a_at", "a_aa_claims_g_root", "g_aa", "self_signed_at", "p2pcd_request"))})
+    return {"part": "S", "ops": ops, "with_aa": rng.random() < 0.5, "with_sign_service": rng.random() < 0.6}
 
 
 def run_s_case(c, W, res):
@@ -112,7 +114,11 @@ def run_s_case(c, W, res):
     G, A, pool = W
     backend = PythonECDSABackend()
     lib = CertificateLibrary(backend, [], [G.aa] if False else [], [])
-    vs = VerifyService(backend, lib, None)
+    sign = None
+    if c.get("with_sign_service"):
+        from flexstack.security.sign_service import SignService
+        sign = SignService(backend, lib)
+    vs = VerifyService(backend, lib, sign)
     configured_roots = {}
     now_us = int((G.now - pki.ITS_EPOCH + 5) * 1e6)
     for i, op in enumerate(c["ops"]):
@@ -149,7 +155,15 @@ def run_s_case(c, W, res):
                     kind, cert = pool["a_at_claims_g_aa"]
                     own, be = OwnCertificate(certificate=cert.certificate, issuer=G.aa, key_id=A.ats[1].key_id), A.backend
                     res.count("S.hostile_offers")
-                msg = craft_signed(own, be, op["psid"], b"data", now_us, op["form"], extra={"generationLocation": {"latitude": 1, "longitude": 2, "elevation": 0xF000}} if op["psid"] == 37 else None)
+                extra = {"generationLocation": {"latitude": 1, "longitude": 2, "elevation": 0xF000}} if op["psid"] == 37 else {}
+                if op.get("carries") == "p2pcd_request":
+                    extra["inlineP2pcdRequest"] = [pool["a_aa"][1].as_hashedid8()[-3:], pool["a_root"][1].as_hashedid8()[-3:], pool["g_aa"][1].as_hashedid8()[-3:]]
+                elif op.get("carries"):
+                    extra["requestedCertificate"] = copy.deepcopy(pool[op["carries"]][1].certificate)
+                    res.count("S.messages_carrying_a_certificate")
+                    if pool[op["carries"]][0] == "hostile":
+                        res.count("S.hostile_offers")
+                msg = craft_signed(own, be, op["psid"], b"data", now_us, op["form"], extra=extra or None)
                 conf = vs.verify(SNVERIFYRequest(sec_header=b"", sec_header_length=0, message=msg, message_length=len(msg)))
                 if op["signer"] in ("a0", "a_claim") and conf.report.value == 0:
                     res.violation(f"C09:message-of-hostile-signer-accepted[{op['signer']}]", f"{op}", ctx)
@@ -236,10 +250,17 @@ def run_i(spec, res):
             be = PythonECDSABackend()
             root_perm = rng.choice(("all", "all", (36, 37, 638), (36,)))
             budget = rng.choice((0, 1, 2, 3))
-            root = OwnCertificate.initialize_certificate(be, pki.root_tbs(now, "r", budget, root_perm), None)
+            groups = None
+            if rng.random() < 0.35:
+                # an issuer whose PSID groups have different remaining chain lengths (some exhausted)
+                pss = rng.choice((((36,), (37,)), ((36, 638), (37,)), ((36,), (37, 638), (99,)), ((36, 37), (638,))))
+                groups = [(ps, rng.choice((0, 0, 1, 2, 3))) for ps in pss]
+                res.count("I.multi_group_issuers")
+            root = OwnCertificate.initialize_certificate(be, pki.root_tbs(now, "r", budget, root_perm, groups=groups), None)
             chain = [root]
             depth = rng.randrange(0, 3)
-            case = {"part": "I", "root_perm": root_perm if root_perm == "all" else list(root_perm), "budget": budget, "levels": []}
+            case = {"part": "I", "root_perm": root_perm if root_perm == "all" else list(root_perm), "budget": budget, "levels": [],
+                    "root_groups": [[list(ps), ch] for ps, ch in groups] if groups else None}
             issuer = root
             dead = False
             for lvl in range(depth):
@@ -259,16 +280,23 @@ def run_i(spec, res):
                     res.observe_set("I.verify_exception_types", type(e).__name__)
                 need = pki.needed_psids(sub.certificate)
                 allowed = pki.issuer_allows(issuer.certificate, need)
-                ib = min((q["minChainLength"] for q in issuer.certificate["toBeSigned"].get("certIssuePermissions", [])), default=0)
+                # remaining chain length of the issuer for the PSIDs the subject asks for (per PSID group of the issuer)
+                ib = pki.issuing_budget(issuer.certificate, pki.needed_psids({"toBeSigned": pki.aa_tbs(now, p)}))
                 case["levels"][-1].update(verifies=verifies, allowed=allowed, issuer_budget=ib)
+                multi = len(issuer.certificate["toBeSigned"].get("certIssuePermissions", [])) > 1
                 if not allowed or ib < 1:
                     res.count("I.must_not_verify_checked")
+                    if multi:
+                        res.count("I.must_not_verify_checked[multi-group-issuer]")
                     if verifies:
-                        res.violation(f"C09:issued-ca-certificate-verifies-although-{'permissions-not-contained' if not allowed else 'chain-length-exhausted'}", f"{case}", case)
+                        res.violation(f"C09:issued-ca-certificate-verifies-although-{'permissions-not-contained' if not allowed else 'chain-length-exhausted'}"
+                                      f"{'[issuer-with-several-psid-groups]' if multi else ''}", f"{case}", case)
                 if verifies:
                     for q in sub.certificate["toBeSigned"].get("certIssuePermissions", []):
-                        if q["minChainLength"] >= ib:
-                            res.violation("C09:issued-ca-keeps-or-extends-chain-length-budget", f"issuer budget {ib}, subject {q['minChainLength']}", case)
+                        qp = ["all"] if q["subjectPermissions"][0] == "all" else [e["psid"] for e in q["subjectPermissions"][1]]
+                        qb = pki.issuing_budget(issuer.certificate, qp)
+                        if q["minChainLength"] >= max(qb, 1):
+                            res.violation("C09:issued-ca-keeps-or-extends-chain-length-budget", f"issuer budget {qb} for {qp}, subject {q['minChainLength']}", case)
                     issuer = sub
                     chain.append(sub)
                 else:
@@ -292,11 +320,15 @@ def run_i(spec, res):
                 verifies = False
                 res.observe_set("I.verify_exception_types", type(e).__name__)
             allowed = pki.issuer_allows(issuer.certificate, list(ap))
-            ib = min((q["minChainLength"] for q in issuer.certificate["toBeSigned"].get("certIssuePermissions", [])), default=0)
+            ib = pki.issuing_budget(issuer.certificate, list(ap))
+            multi = len(issuer.certificate["toBeSigned"].get("certIssuePermissions", [])) > 1
             if not allowed or ib < 1:
                 res.count("I.must_not_verify_checked")
+                if multi:
+                    res.count("I.must_not_verify_checked[multi-group-issuer]")
                 if verifies:
-                    res.violation(f"C09:issued-ticket-verifies-although-{'permissions-not-contained' if not allowed else 'chain-length-exhausted'}", f"issuer budget {ib}, allowed {allowed}", case)
+                    res.violation(f"C09:issued-ticket-verifies-although-{'permissions-not-contained' if not allowed else 'chain-length-exhausted'}"
+                                  f"{'[issuer-with-several-psid-groups]' if multi else ''}", f"issuer budget {ib}, allowed {allowed}", case)
             elif verifies:
                 res.count("I.legit_tickets_verify")
                 # and the independent checker agrees with a positive verdict
